@@ -52,8 +52,8 @@ def observe(v):
         o.update({"k": "xyz", "x": E_(v[1]), "y": E_(v[2]), "z": E_(v[3])})
     elif isinstance(v, tuple) and v and v[0] == "grid":
         o.update({"k": "grid", "zone": int(v[1]), "e": E_(v[2]), "nn": E_(v[3])})
-    elif isinstance(v, tuple) and v and v[0] == "line":
-        o.update({"k": "line", "s": E_(v[1])})
+    elif isinstance(v, tuple) and v and v[0] in ("line", "gline"):
+        o.update({"k": v[0], "s": E_(v[1])})
     o["n_"] = o.pop("nn")
     return o
 
@@ -67,15 +67,31 @@ class Replayer:
         self.calls = 0
 
     def points(self):
-        """two points in Australia-to-anywhere, not antipodal, away from zone boundaries and the band limits"""
+        """three points away from zone boundaries and the band limits: 1 in the southern hemisphere, 2 anywhere (not antipodal to 1),
+        3 within 5..80 km of 1 in the same zone and hemisphere (Session!South, Session!Near); and the epoch of the session's ATRF frame"""
+        import datetime
         r = self.rnd
+
+        def off_boundary(lon):
+            m = (lon + 180.0) % 6.0
+            return lon + 1.0 if m < 1.0 else (lon - 1.0 if m > 5.0 else lon)
         pts = {}
-        for p in (1, 2):
-            lat = r.uniform(-75, 80)
-            lon = r.uniform(-179, 179)
-            if abs((lon + 180.0) % 6.0) < 0.01 or abs((lon + 180.0) % 6.0 - 6.0) < 0.01:
-                lon += 0.05
-            pts[p] = (lat, lon, round(r.uniform(-50, 2500), 3))
+        pts[1] = (r.uniform(-75, -2), off_boundary(r.uniform(-178, 178)), round(r.uniform(-50, 2500), 3))
+        while True:
+            lat, lon = r.uniform(-75, 80), off_boundary(r.uniform(-178, 178))
+            c = (math.sin(math.radians(lat)) * math.sin(math.radians(pts[1][0])) +
+                 math.cos(math.radians(lat)) * math.cos(math.radians(pts[1][0])) * math.cos(math.radians(lon - pts[1][1])))
+            if c > -0.99:
+                break
+        pts[2] = (lat, lon, round(r.uniform(-50, 2500), 3))
+        d, b = r.uniform(5e3, 8e4), r.uniform(0, 360)
+        lat3 = pts[1][0] + math.degrees(d * math.cos(math.radians(b)) / 6.37e6)
+        lon3 = pts[1][1] + math.degrees(d * math.sin(math.radians(b)) / (6.37e6 * math.cos(math.radians(pts[1][0]))))
+        lat3 = min(lat3, -0.5)
+        z1 = math.floor((pts[1][1] + 180.0) / 6.0)
+        lon3 = min(max(lon3, z1 * 6.0 - 180.0 + 0.2), z1 * 6.0 - 180.0 + 5.8)       # same zone as point 1
+        pts[3] = (lat3, lon3, round(r.uniform(-50, 2500), 3))
+        self.epoch = datetime.date(r.randint(1995, 2045), r.randint(1, 12), r.randint(1, 28))
         return pts
 
     def mk_angle(self, x, n):
@@ -136,6 +152,24 @@ class Replayer:
         if a == "To2020":
             x, y, z, _ = tf.conform7(v[1], v[2], v[3], gc.gda94_to_gda2020)
             return ("xyz", x, y, z)
+        if a == "ToAtrf":
+            x, y, z, _ = tf.transform_gda2020_to_atrf2014(v[1], v[2], v[3], self.epoch)
+            return ("xyz", x, y, z)
+        if a == "FromAtrf":
+            x, y, z, _ = tf.transform_atrf2014_to_gda2020(v[1], v[2], v[3], self.epoch)
+            return ("xyz", x, y, z)
+        if a in ("MgaTo94", "MgaTo2020"):
+            f = tf.transform_mga2020_to_mga94 if a == "MgaTo94" else tf.transform_mga94_to_mga2020
+            zone, e, n, _h, _v = f(v[1], v[2], v[3])
+            return ("grid", zone, e, n, False)
+        if a == "GridInverse":
+            w = wsr[j - 1]
+            gdist, b12, b21, lsf = gd.vincinv_utm(v[1], v[2], v[3], w[1], w[2], w[3], "north" if v[4] else "south")
+            return ("gline", gdist, b12, b21)
+        if a == "GridDirect":
+            ln = wsr[j - 1]
+            zone, e, n, b21, lsf = gd.vincdir_utm(v[1], v[2], v[3], ln[2], ln[1], "north" if v[4] else "south")
+            return ("grid", zone, e, n, v[4])
         raise tlc.MachineryError("unknown action %r" % (a,))
 
     def deg(self, ang):
@@ -171,22 +205,25 @@ def validate(traces, ctx, label):
 
 
 def behaviours(ctx, n, size):
-    cfg = tracecheck.write_tmp("SPECIFICATION Spec\nCONSTANT Points <- MCPoints\nCONSTANT MaxVals = %d\nCONSTRAINT Emit\n"
-                               "CHECK_DEADLOCK FALSE\n" % size, ".cfg")
-    try:
-        r = tlc.run_tlc("MC_Session", cfg, workers=1, tags=("BEH",), simulate={"num": n}, depth=size + 2, seed=ctx.seed, timeout=1800)
-    finally:
-        os.unlink(cfg)
     seen = {}
-    for p in r.prints:
-        seen[json.dumps(p[1])] = p[1]
+    for emit, share in (("Emit", 0.4), ("EmitGrid", 0.2), ("EmitCart", 0.2), ("EmitGeod", 0.2)):
+        cfg = tracecheck.write_tmp("SPECIFICATION Spec\nCONSTANT Points <- MCPoints\nCONSTANT South <- MCSouth\nCONSTANT Near <- MCNear\n"
+                                   "CONSTANT MaxVals = %d\nCONSTRAINT %s\nCHECK_DEADLOCK FALSE\n" % (size, emit), ".cfg")
+        try:
+            r = tlc.run_tlc("MC_Session", cfg, workers=1, tags=("BEH",), simulate={"num": max(20, int(n * share))}, depth=size + 2,
+                            seed=ctx.seed, timeout=1800)
+        finally:
+            os.unlink(cfg)
+        for p in r.prints:
+            seen[json.dumps(p[1])] = p[1]
     return list(seen.values())
 
 
 def run(ctx):
     rnd = random.Random(ctx.seed)
     quick = ctx.tier == "quick"
-    cfg = tracecheck.write_tmp("SPECIFICATION Spec\nCONSTANT Points <- MCPoints\nCONSTANT MaxVals = %d\nINVARIANT TypeOK\nINVARIANT Shape\n"
+    cfg = tracecheck.write_tmp("SPECIFICATION Spec\nCONSTANT Points <- MCPoints\nCONSTANT South <- MCSouth\nCONSTANT Near <- MCNear\n"
+                               "CONSTANT MaxVals = %d\nINVARIANT TypeOK\nINVARIANT Shape\n"
                                "PROPERTY Immutable\nCHECK_DEADLOCK FALSE\n" % (3 if quick else 4), ".cfg")
     try:
         r = tlc.run_tlc("MC_Session", cfg, workers=8, timeout=1800)
@@ -215,7 +252,8 @@ def run(ctx):
     for t in traces[:2]:
         ctx.sample({"calls": t["hist"], "points": t["pts"]})
     ctx.rule = ("sessions = TLC-simulated behaviours of Session.tla filling a workspace of %d values (coordinate objects, tuples, "
-                "functional conversions, inverse/direct geodesics, GDA94<->GDA2020) on two random points; distinct = distinct call "
+                "functional conversions, inverse/direct geodesics, GDA94<->GDA2020 by conform7 and by the MGA pipeline, GDA2020<->ATRF2014 at "
+                "an epoch, grid inverse/direct geodesics) on three random points (one southern, one anywhere, one near the first); distinct = distinct call "
                 "sequences; no repository test chains modules" % (12 if quick else 14))
     ctx.assumptions += ["composition-level tolerance 4 mm (chains through the inverse/direct geodesic pair and datum transformation); the "
                         "tight tolerances are the business of the per-property checks"]
